@@ -69,10 +69,10 @@ def plan(tier):
                     min_evals=dict({c: call_min for c in CLAUSES}, recentre=call_min, back_to_centre=700, z_orbit=700,
                                    spelling_agree=400, on_axis_coincide=80),
                     min_anchor_calls={"Motl.split_in_asymmetric_subunits": call_min})
-    call_min = 6400
-    return dict(n_cases=3200, shards=16, classes=CLASSES, timeout_s=3000,
-                min_evals=dict({c: call_min for c in CLAUSES}, recentre=call_min, back_to_centre=6400, z_orbit=6400,
-                               spelling_agree=3200, on_axis_coincide=700),
+    call_min = 4800
+    return dict(n_cases=2400, shards=16, classes=CLASSES, timeout_s=3000,
+                min_evals=dict({c: call_min for c in CLAUSES}, recentre=call_min, back_to_centre=4800, z_orbit=4800,
+                               spelling_agree=2400, on_axis_coincide=500),
                 min_anchor_calls={"Motl.split_in_asymmetric_subunits": call_min})
 
 
@@ -250,6 +250,8 @@ def gen(ctx, i, cls):
             n = min(n, int(rng.choice([2, 3, 4, 6, 7, 8, 9, 10, 11, 12])))
     elif cls == "n_33_64" and not thorough:
         N = min(N, 6)
+    if cls != "many_particles" and N * n > 2000:                  # bounds the work; the full 100 x 64 corner is in many_particles
+        N = max(1, 2000 // n)
     ori = {"gimbal": "gimbal", "near_gimbal": "near_gimbal", "wide_angles": "wide", "half_ties": "lattice"}.get(cls, "mixed")
     signed = bool(rng.integers(0, 2))
     scale = 200.0
